@@ -507,6 +507,45 @@ func wideNotdefCase(rd *rand.Rand, n, variant, id int) *conCase {
 	return c
 }
 
+// fullRangeCase: a three-byte code space <000000>-<0FFFFF> filled by one
+// cidrange: 2^20 codes, exactly what one enumeration may visit
+// (limits.MaxCMapMappings).  Every code must be enumerated, the last one too.
+func fullRangeCase(id int) *conCase {
+	lo, hi := []int{0, 0, 0}, []int{0x0f, 0xff, 0xff}
+	base := 5 + id
+	c := &conCase{Kind: "full-cid", CSR: []rng{{lo, hi}}, Origin: "fullrange:2^20"}
+	c.Opt = options{Version: versionNames[id%len(versionNames)], Pretty: id%2 == 0}
+	c.File.Ranges = []fRange{{First: lo, Last: hi, V: &base}}
+	c.Probes = [][]int{lo, hi, {0x0f, 0xff, 0xfe}, {0x08, 0, 0}, {0x10, 0, 0}, {0, 0}}
+	return c
+}
+
+// notdefZeroCase: a notdef entry with the value 0 is not redundant when it
+// lies over a notdef range of the usecmap parent: the child's answer (CID 0)
+// wins for its codes.
+func notdefZeroCase(variant int) *conCase {
+	lo, hi := []int{0}, []int{0xff}
+	c := &conCase{Kind: "cid", CSR: []rng{{lo, hi}}, Origin: fmt.Sprintf("notdefzero/v%d", variant)}
+	c.Opt = options{Version: versionNames[variant%len(versionNames)], Pretty: variant%2 == 0}
+	switch variant {
+	case 0: // a single code of the child over a range of the parent
+		c.Layers = []layer{
+			{Entries: []entry{{C: []int{0x41}, V: cidVal(100)}}, Notdef: []notdef{{Lo: []int{0x20}, Hi: []int{0x20}, V: 0}}},
+			{Entries: []entry{{C: []int{0x42}, V: cidVal(5)}}, Notdef: []notdef{{Lo: []int{0x10}, Hi: []int{0x3f}, V: 7}}}}
+	case 1: // a range of the child inside a range of the parent that covers everything
+		c.Layers = []layer{
+			{Entries: []entry{{C: []int{0x41}, V: cidVal(100)}}, Notdef: []notdef{{Lo: []int{0x30}, Hi: []int{0x37}, V: 0}}},
+			{Entries: []entry{{C: []int{0x42}, V: cidVal(5)}}, Notdef: []notdef{{Lo: lo, Hi: hi, V: 9}}}}
+	default: // three layers: the middle one answers 0
+		c.Layers = []layer{
+			{Entries: []entry{{C: []int{0x41}, V: cidVal(100)}}, Notdef: []notdef{}},
+			{Entries: []entry{{C: []int{0x43}, V: cidVal(3)}}, Notdef: []notdef{{Lo: []int{0x20}, Hi: []int{0x2f}, V: 0}}},
+			{Entries: []entry{{C: []int{0x42}, V: cidVal(5)}}, Notdef: []notdef{{Lo: []int{0x10}, Hi: []int{0x3f}, V: 7}}}}
+	}
+	c.Probes = [][]int{{0x0f}, {0x10}, {0x1f}, {0x20}, {0x21}, {0x2f}, {0x30}, {0x37}, {0x38}, {0x3f}, {0x40}, {0x41}, {0x42}, {0x43}, {0xff}}
+	return c
+}
+
 // wideRangeCase: one cidrange over a whole 3- or 4-byte code space, value 0.
 // Positions up to 0x7FFFFFFF are probed (rangeIndex documents that it treats
 // larger positions as unmapped; TLC's integers end there too).
@@ -710,6 +749,7 @@ func randomCases(ctx *core.Ctx) []*conCase {
 		out = append(out, multiRuneCase(rd, i))
 	}
 	out = append(out, wideRangeCase(rd, 4, 0), wideRangeCase(rd, 3, 1))
+	out = append(out, fullRangeCase(0), fullRangeCase(1), notdefZeroCase(0), notdefZeroCase(1), notdefZeroCase(2))
 	for v := 0; v < 5; v++ {
 		out = append(out, wideNotdefCase(rd, 4, v, v), wideNotdefCase(rd, 3, v, v+1))
 	}
